@@ -78,5 +78,8 @@ rep('''					var tr TemplateRecord
 					if tr, ok := cache.retrieve(uint16(id), e); ok { // (NetFlow v9 has no peer RPC: a plain lookup)
 						v = cVersionOf(tr)
 					}''')
+rep("""				m = append(m, m2[16:]...)
+				m[2], m[3] = byte(len(m)>>8), byte(len(m))""", """				m = append(m, m2[20:]...)
+				m[2], m[3] = 0, 2""")
 open(V + '/drivers/netflow9/conc_verif_test.go', 'w').write(s)
 print("generated drivers/netflow9/conc_verif_test.go")
